@@ -30,7 +30,7 @@ pub enum Init {
 
 #[derive(Clone, Debug, Serialize, Deserialize, PartialEq)]
 pub enum C17Case {
-    Mode { mode: u8, init: Init, kind: u8, n: u16, seed: u32, chunk: u16 },
+    Mode { mode: u8, init: Init, kind: u8, n: u16, seed: u32, chunk: u16, #[serde(default)] name: u8 },
     /// SIGKILL the child after `acks` acknowledgements plus `spin` busy iterations
     Kill { mode: u8, init: Init, kind: u8, n: u16, seed: u32, chunk: u16, acks: u16, spin: u32 },
     /// Every return of `work()` is a crash point: the file as the kernel has it (read
@@ -76,8 +76,24 @@ fn init_strategy() -> impl Strategy<Value = Init> {
 
 const OLD: &[u8] = b"previous content of the file\n\x00\x01\x02";
 
+/// File names the API accepts (`AsRef<Path>`): plain, bytes that are not UTF-8, non-ASCII
+/// UTF-8 with blanks, and a long name.
+fn file_name(name: u8) -> std::ffi::OsString {
+    use std::os::unix::ffi::OsStringExt;
+    match name % 4 {
+        0 => "out.bin".into(),
+        1 => std::ffi::OsString::from_vec(b"caf\xe9 \xff\xfe.bin".to_vec()),
+        2 => "s\u{e9}rie n\u{b0}7 \u{1f4e1}.bin".into(),
+        _ => format!("{}.bin", "long-name-".repeat(20)).into(),
+    }
+}
+
 fn prepare(sc: &Scratch, init: Init) -> std::path::PathBuf {
-    let p = sc.path("out.bin");
+    prepare_named(sc, init, 0)
+}
+
+fn prepare_named(sc: &Scratch, init: Init, name: u8) -> std::path::PathBuf {
+    let p = sc.path("x").with_file_name(file_name(name));
     match init {
         Init::Absent => {}
         Init::Empty => std::fs::write(&p, b"").unwrap(),
@@ -85,9 +101,9 @@ fn prepare(sc: &Scratch, init: Init) -> std::path::PathBuf {
         Init::Directory => std::fs::create_dir(&p).unwrap(),
         Init::UnderFile => {
             std::fs::write(sc.path("plain"), b"x").unwrap();
-            return sc.path("plain").join("out.bin");
+            return sc.path("plain").join(file_name(name));
         }
-        Init::NoParent => return sc.path("missing-dir").join("out.bin"),
+        Init::NoParent => return sc.path("missing-dir").join(file_name(name)),
         Init::DanglingSymlink => {
             std::os::unix::fs::symlink(sc.path("target-that-does-not-exist.bin"), &p).unwrap();
         }
@@ -149,8 +165,8 @@ impl Prop for C17 {
         "fault_enumeration"
     }
     fn strategy(&self, tier: Tier) -> BoxedStrategy<C17Case> {
-        let modes = (0u8..3, init_strategy(), 0u8..3, 0u16..3000, any::<u32>(), 1u16..3000)
-            .prop_map(|(mode, init, kind, n, seed, chunk)| C17Case::Mode { mode, init, kind, n, seed, chunk });
+        let modes = (0u8..3, init_strategy(), 0u8..3, 0u16..3000, any::<u32>(), 1u16..3000, prop_oneof![2 => Just(0u8), 1 => 1u8..4])
+            .prop_map(|(mode, init, kind, n, seed, chunk, name)| C17Case::Mode { mode, init, kind, n, seed, chunk, name });
         let kills = (
             0u8..3,
             prop_oneof![Just(Init::Absent), Just(Init::NonEmpty), Just(Init::Empty)],
@@ -193,7 +209,13 @@ impl Prop for C17 {
                 for kind in 0..3 {
                     // new data longer than, shorter than, and absent against the old content
                     for n in [700u16, 3, 0] {
-                        v.push(C17Case::Mode { mode, init, kind, n, seed: 7, chunk: 97 });
+                        v.push(C17Case::Mode { mode, init, kind, n, seed: 7, chunk: 97, name: 0 });
+                    }
+                    // other spellings of the file name: the named file is the one written
+                    if matches!(init, Init::Absent | Init::NonEmpty) {
+                        for name in 1..4 {
+                            v.push(C17Case::Mode { mode, init, kind, n: 3, seed: 7, chunk: 97, name });
+                        }
                     }
                 }
             }
@@ -205,7 +227,7 @@ impl Prop for C17 {
     }
     fn run(&self, case: &C17Case, ctx: &mut Ctx) {
         match case {
-            C17Case::Mode { mode, init, kind, n, seed, chunk } => run_mode(*mode, *init, *kind, *n as usize, *seed as u64, *chunk as usize, ctx),
+            C17Case::Mode { mode, init, kind, n, seed, chunk, name } => run_mode(*mode, *init, *kind, *n as usize, *seed as u64, *chunk as usize, *name, ctx),
             C17Case::FileLimit { kind, n, seed, limit } => run_file_limit(*kind, *n as usize, *seed as u64, *limit as u64, ctx),
             C17Case::CreateRace { kind, threads, rounds } => run_create_race(*kind, *threads as usize, *rounds as usize, ctx),
             C17Case::AppendShared { kind, n, seed, chunk, every } => run_append_shared(*kind, *n as usize, *seed as u64, *chunk as usize, *every as usize, ctx),
@@ -217,7 +239,7 @@ impl Prop for C17 {
         }
     }
     fn rule(&self) -> String {
-        "enumerated: open modes x initial file states x sink kinds x {700, 3, 0} units of new data (189 combinations), plus generated data lengths/chunkings; fault enumeration: a child process streams a seeded sequence through the sink and acknowledges the running count of consumed samples (raw write(2)) after every work() that returns; the parent SIGKILLs it after a generated number of acknowledgements plus a generated busy-wait. Oracle: constructor result and final file content equal a model of the documented modes (Create fails iff the path exists; Overwrite leaves exactly the new data; Append keeps old content and appends, creating the file if absent; structural impossibilities are Err); after a kill the file is (old content for Append ++) a byte prefix of the serialised stream, at least as long as the last acknowledged count. In-process crash-point enumeration ('durable' cases): FileSink<u8|f32|Complex|u32> on streams of 8 KiB, 64 KiB, 1 MiB and the default 4 MB, fed batches of 1..200 000 samples (and, for the byte sink on the default stream, a few batches of 1-3.6 million); after *every* work() that returns, the file is read through a second descriptor (exactly what a SIGKILL at that instant leaves behind, since the page cache survives the process) and must hold all consumed samples and be a prefix of the serialised stream. A size-limited file (RLIMIT_FSIZE in a child: short writes, then EFBIG): what counts as consumed is in the file, the file is a prefix. Create raced from 2-8 threads on one absent path: exactly one constructor succeeds. Append with a second appender ('append-shared'): another handle appends markers to the file between work() calls; the file must be the old content followed by everything in the order it was written. Crash points inside a call ('blocked' cases): the destination is a FIFO drained by the harness in pieces, so the sink blocks in write(2) mid-call while the harness samples how much of the stream counts as consumed: bytes consumed <= bytes read from the FIFO + pipe capacity (+ one packet for the packet sink) at every observation - an invariant of any sink that consumes after writing, so timing can hide a violation but not produce one; and /dev/full, where the write fails: nothing of that call may count as consumed (stream sink). Non-trivial: a FIFO case with more data than the pipe holds, a durable case with >= 2 work() returns, a mode case whose initial state is not 'absent', or a kill that landed after >= 1 acknowledgement and before the end; distinct = hash of the case (kill timing is not part of the hash).".into()
+        "enumerated: open modes x initial file states x sink kinds x {700, 3, 0} units of new data (189 combinations) and, for absent / non-empty files, three further spellings of the file name (bytes that are not UTF-8, non-ASCII with blanks, 200 characters; 54 combinations), plus generated data lengths/chunkings; fault enumeration: a child process streams a seeded sequence through the sink and acknowledges the running count of consumed samples (raw write(2)) after every work() that returns; the parent SIGKILLs it after a generated number of acknowledgements plus a generated busy-wait. Oracle: constructor result and final file content equal a model of the documented modes (Create fails iff the path exists; Overwrite leaves exactly the new data; Append keeps old content and appends, creating the file if absent; structural impossibilities are Err); after a kill the file is (old content for Append ++) a byte prefix of the serialised stream, at least as long as the last acknowledged count. In-process crash-point enumeration ('durable' cases): FileSink<u8|f32|Complex|u32> on streams of 8 KiB, 64 KiB, 1 MiB and the default 4 MB, fed batches of 1..200 000 samples (and, for the byte sink on the default stream, a few batches of 1-3.6 million); after *every* work() that returns, the file is read through a second descriptor (exactly what a SIGKILL at that instant leaves behind, since the page cache survives the process) and must hold all consumed samples and be a prefix of the serialised stream. A size-limited file (RLIMIT_FSIZE in a child: short writes, then EFBIG): what counts as consumed is in the file, the file is a prefix. Create raced from 2-8 threads on one absent path: exactly one constructor succeeds. Append with a second appender ('append-shared'): another handle appends markers to the file between work() calls; the file must be the old content followed by everything in the order it was written. Crash points inside a call ('blocked' cases): the destination is a FIFO drained by the harness in pieces, so the sink blocks in write(2) mid-call while the harness samples how much of the stream counts as consumed: bytes consumed <= bytes read from the FIFO + pipe capacity (+ one packet for the packet sink) at every observation - an invariant of any sink that consumes after writing, so timing can hide a violation but not produce one; and /dev/full, where the write fails: nothing of that call may count as consumed (stream sink). Non-trivial: a FIFO case with more data than the pipe holds, a durable case with >= 2 work() returns, a mode case whose initial state is not 'absent', or a kill that landed after >= 1 acknowledgement and before the end; distinct = hash of the case (kill timing is not part of the hash).".into()
     }
     fn assumptions(&self) -> Vec<String> {
         vec![
@@ -229,13 +251,16 @@ impl Prop for C17 {
     }
 }
 
-fn run_mode(mode: u8, init: Init, kind: u8, n: usize, seed: u64, chunk: usize, ctx: &mut Ctx) {
+fn run_mode(mode: u8, init: Init, kind: u8, n: usize, seed: u64, chunk: usize, name: u8, ctx: &mut Ctx) {
     ctx.class(format!("mode={} init={init:?}", mode_str(mode)));
     if init != Init::Absent {
         ctx.nontrivial();
     }
+    if name % 4 != 0 {
+        ctx.class(format!("file-name={}", ["plain", "not-utf8", "non-ascii", "long"][name as usize % 4]));
+    }
     let sc = Scratch::new();
-    let path = prepare(&sc, init);
+    let path = prepare_named(&sc, init, name);
     let want = model(mode, init);
     let (bytes, _) = serialised(kind, n, seed);
     rustradio::verif::set_stream_size(Some(8192));
